@@ -54,7 +54,7 @@ Fixpoint index_all (l : list oq) (idx : list Z) : res (list oq) :=
 (* ---- numpy / float primitives of the code REGENERATED from naive.py (build/coq/C11/Gen.v, written
    by translator/naive_c11.py on every run; Bridge.v proves the generated functions equal to the
    model below).  Arrays are `list oq`, NaN = None. *)
-Definition np_full_nan (k : Z) : list oq := repeat None (Z.to_nat k).         (* np.full(k, np.nan) *)
+Definition np_full_nan (k : Z) : list oq := repeat (None : oq) (Z.to_nat k).        (* np.full(k, np.nan) *)
 Definition np_hstack (a b : list oq) : list oq := a ++ b.
 Definition np_tile (a : list oq) (reps : Z) : list oq := tile (Z.to_nat reps) a.
 Definition np_repeat (x : oq) (k : Z) : list oq := repeat x (Z.to_nat k).
